@@ -628,6 +628,8 @@ func (e *Enc) blockCtx(at *ssa.BasicBlock, st *State, extra map[string]CVal) *Ct
 						continue
 					}
 				}
+			} else if best != nil {
+				continue // a parameter: the farthest definition
 			}
 			best = v
 		}
@@ -667,6 +669,8 @@ func (e *Enc) loopCtx(li *loopInfo, st *State, over map[*ssa.Phi]Term, extra map
 				}
 			}
 		}
+		var best CVal
+		bestDepth, haveBest := -2, false
 		for _, v := range vs {
 			if a, ok := v.(*ssa.Alloc); ok {
 				if r, ok := e.vals[a]; ok && r.Loc != nil {
@@ -682,13 +686,21 @@ func (e *Enc) loopCtx(li *loopInfo, st *State, over map[*ssa.Phi]Term, extra map
 				}
 			}
 			if r, ok := e.vals[v]; ok && r.Loc == nil && v.Parent() == e.fn {
+				// the definition closest to the loop header among those dominating it (a parameter is the farthest)
+				depth := -1
 				if ins, ok := v.(ssa.Instruction); ok {
 					if !ins.Block().Dominates(li.header) {
 						continue
 					}
+					depth = domDepth(ins.Block())
 				}
-				return CVal{T: r.T, GT: v.Type()}, true
+				if !haveBest || depth > bestDepth {
+					best, bestDepth, haveBest = CVal{T: r.T, GT: v.Type()}, depth, true
+				}
 			}
+		}
+		if haveBest {
+			return best, true
 		}
 		return CVal{}, false
 	}
@@ -809,8 +821,9 @@ func (e *Enc) writeSetOf(instrs []ssa.Instruction, inRegion func(ssa.Instruction
 		}
 	}
 	type pendingCall struct {
-		call *ssa.Call
-		fc   *FuncC
+		call   *ssa.Call
+		fc     *FuncC
+		callee *ssa.Function
 	}
 	var calls []pendingCall
 	{
@@ -862,9 +875,18 @@ func (e *Enc) writeSetOf(instrs []ssa.Instruction, inRegion func(ssa.Instruction
 				}
 				if callee := x.Call.StaticCallee(); callee != nil {
 					if fc := e.p.cs.Funcs[funcName(callee)]; fc != nil {
-						calls = append(calls, pendingCall{x, fc})
+						calls = append(calls, pendingCall{x, fc, callee})
 						continue
 					}
+				}
+				if _, isB := x.Call.Value.(*ssa.Builtin); !isB && x.Call.StaticCallee() == nil {
+					// dynamic call: every candidate's frame
+					for _, m := range e.p.funcValueCandidates(x.Call.Signature()) {
+						if fc := e.p.cs.Funcs[funcName(m)]; fc != nil {
+							calls = append(calls, pendingCall{x, fc, m})
+						}
+					}
+					continue
 				}
 				if _, isB := x.Call.Value.(*ssa.Builtin); isB {
 					if x.Call.Value.Name() == "append" {
@@ -885,9 +907,8 @@ func (e *Enc) writeSetOf(instrs []ssa.Instruction, inRegion func(ssa.Instruction
 	}
 	// callee modifies clauses
 	for _, pc := range calls {
-		callee := pc.call.Call.StaticCallee()
 		for _, t := range pc.fc.Mod {
-			e.targetWrites(ws, pc.call, callee, t)
+			e.targetWrites(ws, pc.call, pc.callee, t)
 		}
 	}
 	return ws
@@ -910,10 +931,21 @@ func (e *Enc) applyHavoc(ws *writeSet, st *State) {
 		e.emit("(assert (>= %s %s))", na.S, st.alloc.S)
 		st.alloc = na
 	}
+	oldHeap := map[string]Term{}
 	for _, name := range sortedKeys(ws.coarse) {
+		if strings.HasPrefix(name, "G.chan.") {
+			oldHeap[name] = st.heapGet(e, name, ws.coarse[name])
+		}
 		st.heap[name] = e.havoc(name, ws.coarse[name])
 		if ax := e.heapTypingAlloc(name, st.heap[name], st.alloc.S); ax != "" {
 			e.emit("%s", ax)
+		}
+	}
+	for _, name := range sortedKeys(oldHeap) {
+		if strings.HasPrefix(name, "G.chan.log.") {
+			if n0, ok := oldHeap["G.chan.nsent"]; ok {
+				e.appendOnly(n0, oldHeap[name], st.heap["G.chan.nsent"], st.heap[name], nil)
+			}
 		}
 	}
 	for _, name := range sortedKeys(ws.precise) {
